@@ -4,7 +4,9 @@
    update re-issuing a regular voter and the root, sensitive update with re-issued/added voters and a
    new quorum, sensitive update with quorum 1, base TRC) with up to two deviations each (ID, flags,
    quorum/AS lists, certificate slots, vote list edits incl. duplicates / wrong class / out of range,
-   signer infos absent / good / forged).  In-model: the decision procedure shaped like
+   signer infos absent / good / forged; certificate order swaps; "another voter votes instead"; a sixth
+   accepted update re-lists a re-issued regular voter at another position).  A panic of the
+   verification code is recorded as an observation (key verification-panics), it does not kill the run.  In-model: the decision procedure shaped like
    SignedTRC.Verify + TRC.ValidateUpdate + verifyAll accepts only what AcceptOK (written from the
    statement and doc/cryptography/trc.rst) allows.  Every distinct case is a scenario.
 2. harness/cmd/trc -mode update builds every case with real x509 certificates, the real TRC encoding
